@@ -118,7 +118,7 @@ func TestC05ReplayInsideHandler(t *testing.T) {
 					t.Fatal(err)
 				}
 				var phCalls atomic.Int32
-				bus := ebu.New(ebu.WithStore(st.Store), ebu.WithPanicHandler(func(any, reflect.Type, any) { phCalls.Add(1) }))
+				bus := ebu.New(ebu.WithStore(st.Store), ebu.WithSubscriptionStore(ebu.NewMemoryStore()), ebu.WithPanicHandler(func(any, reflect.Type, any) { phCalls.Add(1) }))
 				for k := 1; k <= 3; k++ {
 					ebu.Publish(bus, rpEv{ID: k})
 				}
@@ -167,6 +167,30 @@ func TestC05ReplayInsideHandler(t *testing.T) {
 				}
 				if rerr != nil || seen != 6 {
 					run.Violation("panic:store-unusable-after-replay-panic", fmt.Sprintf("[%s] after the panic, a replay of the log returned %v after %d of 6 events", cur, rerr, seen), witness)
+				}
+				// a resumable subscription whose handler panics on a replayed event: whether the panic
+				// reaches the caller of SubscribeWithReplay or not, the caller carries on and attaches the
+				// same subscription id again with a handler that works - the bus lets it
+				func() {
+					defer func() { _ = recover() }()
+					ebu.SubscribeWithReplay(context.Background(), bus, "c05-retried", func(e rpEv) {
+						if e.ID == panicAt {
+							panic("c05: handler panics on a replayed event")
+						}
+					}, so...)
+				}()
+				dog.Tick()
+				var sawLive atomic.Bool
+				serr := ebu.SubscribeWithReplay(context.Background(), bus, "c05-retried", func(e rpEv) {
+					if e.ID == 7 {
+						sawLive.Store(true)
+					}
+				})
+				ebu.Publish(bus, rpEv{ID: 7})
+				bus.Wait()
+				dog.Tick()
+				if serr != nil || !sawLive.Load() {
+					run.Violation("panic:subscription-id-unusable-after-replay-panic", fmt.Sprintf("[%s] after a handler panicked on a replayed event inside SubscribeWithReplay, attaching the same subscription id again returned %v; the next published event reached the new handler: %v", cur, serr, sawLive.Load()), witness)
 				}
 				run.Case(cur, true)
 				st.Close()
